@@ -662,6 +662,188 @@ func canDeprecateArg(a *Arg) bool {
 	return a.Dirs == "" && (!strings.HasSuffix(a.Wrap, "!") || a.Default != "")
 }
 
+// depmix: SEVERAL deprecated siblings in one container with pairwise different
+// reasons (the k-th deprecated sibling gets depmixReasons[k-1]), mixed with
+// non-deprecated ones. A pattern is a string over {d, n}: position i says whether
+// the i-th member of the container (enum values; own fields of an object /
+// interface; arguments of a field; input fields; directive arguments) is
+// deprecated; missing members are added (values C, D; fields / input fields m3,
+// m4 : Int; arguments p1..p4 : Int), members beyond the pattern stay as they are.
+// Enums get every pattern of length <= 4 with 2 or 3 d's (every position), the
+// other containers every pattern of length <= 3 with >= 2 d's.
+var depmixReasons = []string{`@deprecated(reason: "r1")`, `@deprecated`, `@deprecated(reason: "r3")`}
+
+func depmixPatterns(maxLen int) []string {
+	var out []string
+	for l := 2; l <= maxLen; l++ {
+		for m := 0; m < 1<<l; m++ {
+			p, nd := "", 0
+			for i := 0; i < l; i++ {
+				if m&(1<<(l-1-i)) != 0 {
+					p += "d"
+					nd++
+				} else {
+					p += "n"
+				}
+			}
+			if nd >= 2 && nd <= 3 {
+				out = append(out, p)
+			}
+		}
+	}
+	// simplest first: fewer members, then fewer deprecated ones
+	sort.SliceStable(out, func(i, j int) bool {
+		if len(out[i]) != len(out[j]) {
+			return len(out[i]) < len(out[j])
+		}
+		return strings.Count(out[i], "d") < strings.Count(out[j], "d")
+	})
+	return out
+}
+
+var (
+	depmixEnumPatterns    = depmixPatterns(4)
+	depmixSiblingPatterns = depmixPatterns(3)
+)
+
+func validPattern(p string, menu []string) bool { return inList(menu, p) }
+
+// applyDepmix applies (or, with dry, only checks) a depmix pattern at a site.
+func (s *Schema) applyDepmix(site, pat string, dry bool) bool {
+	reason := func(k int) string { return depmixReasons[k] }
+	if f := s.findField(site); f != nil { // arguments of a field
+		if !validPattern(pat, depmixSiblingPatterns) {
+			return false
+		}
+		args := f.Args
+		for i := range pat {
+			if i < len(args) {
+				if pat[i] == 'd' && !canDeprecateArg(args[i]) || args[i].Dirs != "" {
+					return false
+				}
+			}
+		}
+		if dry {
+			return true
+		}
+		for i := len(f.Args); i < len(pat); i++ {
+			f.Args = append(f.Args, &Arg{Name: fmt.Sprintf("p%d", i+1), Type: "Int", Wrap: "T"})
+		}
+		k := 0
+		for i := range pat {
+			if pat[i] == 'd' {
+				f.Args[i].Dirs = reason(k)
+				k++
+			}
+		}
+		return true
+	}
+	if dir := s.findDir(site); dir != nil { // arguments of a directive
+		if !validPattern(pat, depmixSiblingPatterns) {
+			return false
+		}
+		for i := range pat {
+			if i < len(dir.Args) {
+				if pat[i] == 'd' && !canDeprecateArg(dir.Args[i]) || dir.Args[i].Dirs != "" {
+					return false
+				}
+			}
+		}
+		if dry {
+			return true
+		}
+		for i := len(dir.Args); i < len(pat); i++ {
+			dir.Args = append(dir.Args, &Arg{Name: fmt.Sprintf("p%d", i+1), Type: "Int", Wrap: "T"})
+		}
+		k := 0
+		for i := range pat {
+			if pat[i] == 'd' {
+				dir.Args[i].Dirs = reason(k)
+				k++
+			}
+		}
+		return true
+	}
+	t := s.typ(site)
+	if t == nil {
+		return false
+	}
+	switch t.Kind {
+	case 'E':
+		if !validPattern(pat, depmixEnumPatterns) {
+			return false
+		}
+		for i := range pat {
+			if i < len(t.Values) && t.Values[i].Dirs != "" {
+				return false
+			}
+		}
+		if dry {
+			return true
+		}
+		for i := len(t.Values); i < len(pat); i++ {
+			t.Values = append(t.Values, &EnumVal{Name: string(rune('A' + i))})
+		}
+		k := 0
+		for i := range pat {
+			if pat[i] == 'd' {
+				t.Values[i].Dirs = reason(k)
+				k++
+			}
+		}
+		return true
+	case 'O', 'I':
+		if !validPattern(pat, depmixSiblingPatterns) {
+			return false
+		}
+		for i := range pat {
+			if i < len(t.Fields) && t.Fields[i].Dirs != "" {
+				return false
+			}
+		}
+		if dry {
+			return true
+		}
+		for i := len(t.Fields); i < len(pat); i++ {
+			t.Fields = append(t.Fields, &Field{Name: fmt.Sprintf("m%d", i+1), Type: "Int", Wrap: "T"})
+		}
+		k := 0
+		for i := range pat {
+			if pat[i] == 'd' {
+				t.Fields[i].Dirs = reason(k)
+				k++
+			}
+		}
+		return true
+	case 'N':
+		if !validPattern(pat, depmixSiblingPatterns) {
+			return false
+		}
+		for i := range pat {
+			if i < len(t.Inputs) {
+				if pat[i] == 'd' && !canDeprecateArg(t.Inputs[i]) || t.Inputs[i].Dirs != "" {
+					return false
+				}
+			}
+		}
+		if dry {
+			return true
+		}
+		for i := len(t.Inputs); i < len(pat); i++ {
+			t.Inputs = append(t.Inputs, &Arg{Name: fmt.Sprintf("m%d", i+1), Type: "Int", Wrap: "T"})
+		}
+		k := 0
+		for i := range pat {
+			if pat[i] == 'd' {
+				t.Inputs[i].Dirs = reason(k)
+				k++
+			}
+		}
+		return true
+	}
+	return false
+}
+
 // coreVariants: the sub-menu used when decorations are combined in pairs
 // (every operation and every site stays; of the purely textual variant families
 // only the representatives listed here). Single decorations use the full menus.
@@ -671,6 +853,7 @@ var coreVariants = map[string]map[string]bool{
 	"addarg":    {"int": true, "int_req": true, "int_1": true, "int_null": true, "str_esc": true, "list2": true, "enum": true, "inobj2": true, "inobj_list": true, "scalar_obj": true},
 	"describe":  {"plain": true, "blockml": true},
 	"directive": {"loc:FIELD": true, "loc:ARGUMENT_DEFINITION": true, "ts_all": true, "rep": true, "arg_default": true, "arg_dep": true, "applied_dep": true},
+	"depmix":    {}, // single decoration only (two plain deprecate decorations already give two deprecated siblings in a pair)
 }
 
 func isCore(d Deco) bool {
@@ -719,6 +902,36 @@ func ListDecos(s *Schema) []Deco {
 					for _, m := range deprecateMenu {
 						add("deprecate", t.Name+"."+v.Name, m.Name)
 					}
+				}
+			}
+		}
+	}
+	// several deprecated siblings with different reasons in one container
+	for _, t := range s.Types {
+		pats := depmixSiblingPatterns
+		if t.Kind == 'E' {
+			pats = depmixEnumPatterns
+		}
+		if t.Kind == 'E' || t.Kind == 'O' || t.Kind == 'I' || t.Kind == 'N' {
+			for _, p := range pats {
+				if s.applyDepmix(t.Name, p, true) {
+					add("depmix", t.Name, p)
+				}
+			}
+		}
+	}
+	for i := range fields {
+		for _, p := range depmixSiblingPatterns {
+			if s.applyDepmix(fnames[i], p, true) {
+				add("depmix", fnames[i], p)
+			}
+		}
+	}
+	for _, d := range s.Dirs {
+		if !d.Applied {
+			for _, p := range depmixSiblingPatterns {
+				if s.applyDepmix("@"+d.Name, p, true) {
+					add("depmix", "@"+d.Name, p)
 				}
 			}
 		}
@@ -1036,6 +1249,8 @@ func (s *Schema) Apply(d Deco) bool {
 			return true
 		}
 		return false
+	case "depmix":
+		return s.applyDepmix(d.Site, d.Var, false)
 	case "wrap":
 		if !inList(wrapMenu, d.Var) && d.Var != "T" {
 			return false
@@ -1376,7 +1591,7 @@ func typeOfSite(site string) string {
 func conflict(base *Schema, a, b Deco) bool {
 	if a.Op == b.Op && a.Site == b.Site {
 		switch a.Op {
-		case "wrap", "retarget", "deprecate", "describe", "roots", "order", "extend":
+		case "wrap", "retarget", "deprecate", "describe", "roots", "order", "extend", "depmix":
 			return true // same slot: the second replaces the first (equals a single decoration)
 		}
 	}
